@@ -287,6 +287,12 @@ func init() {
 	streams["errdec"] = func(r *rng, n int) {
 		for i := 0; i < n; i++ {
 			ctx := r.genCtx(true)
+			if ctx.MaxExponent > 6144 {
+				// programs combine registers freely (x/Inf is a zero at the bottom of the range, then added to
+				// an ordinary number): with the package limits the pure extracted model would need 100000-digit
+				// coefficients; the limits themselves are exercised by the arith and text streams
+				ctx.MaxExponent, ctx.MinExponent = 6144, -6143
+			}
 			ctx.Traps = r.genTrapSet()
 			if r.coin(30) {
 				ctx.Traps = 0
